@@ -176,10 +176,13 @@ func TestHuge(t *testing.T) {
 					core.RunCase(t, "huge", Huge{Limit: L, LenWord: lw, Type: tp, Pos: "session", Smuggle: true}, RunHuge)
 				}
 			}
-			core.RunCase(t, "huge", Huge{Limit: L, LenWord: lw, Delivered: 8, Pos: "startup"}, RunHuge)
+			for _, dl := range []int{0, 8, 16} {
+				core.RunCase(t, "huge", Huge{Limit: L, LenWord: lw, Delivered: dl, Pos: "startup"}, RunHuge)
+				core.RunCase(t, "huge", Huge{Limit: L, LenWord: lw, Delivered: dl, Pos: "password"}, RunHuge)
+			}
 		}
 	}
-	core.MarkExhaustive("huge (3 limits x 10 length words x 4 types x 3 delivered sizes, + startup)")
+	core.MarkExhaustive("huge (3 limits x 10 length words x 4 types x 3 delivered sizes, + start-up packet and password message with 0 / 8 / 16 bytes delivered)")
 }
 
 func TestReplay(t *testing.T) {
